@@ -3,6 +3,7 @@
   specification says.
 -/
 import SonicSpec.Proofs.DirStep
+import SonicSpec.Proofs.DirAny
 namespace SonicSpec.Dir
 open SonicSpec SonicSpec.Go SonicSpec.Json SonicSpec.Bind SonicSpec.Stream
 
@@ -418,5 +419,84 @@ theorem opsOK_str (n : Nat) : OpsOK o co n .str := by
           have hne : c ≠ 34 := tok_ne_quote hs (by intro r0 h0; rw [htk] at h0; cases h0)
           refine e_chk_miss hchk (by rw [hi]; exact hs) hne (by rw [hi]; exact hx) ?_
           exact k _ (by rw [hi]; exact ⟨rfl, (setAt_same _ _ _ hg).symm, rfl, rfl⟩)
+
+theorem anyNumber_wt (o : DecOpts) (l : Bytes) : WT .any (anyNumber o l).1 = true := by
+  unfold anyNumber
+  split
+  · rfl
+  · split
+    · rfl
+    · split <;> rfl
+
+theorem toAny_wt (o : DecOpts) (j : RVal) : WT .any (toAny o j).1 = true := by
+  cases j with
+  | null => simp [toAny, WT]
+  | bool b => simp [toAny, WT, notPtrT]
+  | num l => simp only [toAny]; exact anyNumber_wt o l
+  | str b u => simp [toAny, WT, notPtrT]
+  | arr raw xs => simp [toAny, WT, notPtrT]
+  | obj raw kvs => simp [toAny, WT, notPtrT]
+
+theorem step_any {pc : Nat} {σ : St} {cur : GoVal} {j : RVal} {r : Bytes} (hg : getAt σ.root σ.vp = some cur) (hwt : WT .any cur = true)
+    (hp : parseR (skipFuel σ.inp) σ.inp = some (j, r)) :
+    step o none .any pc σ = match toAny o j with
+      | (g, none) => .next (pc + 1) { (σ.put g) with inp := r }
+      | (_, some e) => .err (.dec e) := by
+  simp only [step, hg]
+  cases cur with
+  | nil => simp only [hp]; cases toAny o j with | mk g e => cases e <;> rfl
+  | any t w =>
+    cases t with
+    | ptr t' => simp [WT, notPtrT] at hwt
+    | _ => simp only [hp]; cases toAny o j with | mk g e => cases e <;> rfl
+  | _ => simp [WT] at hwt
+
+/-- interface{}: `_OP_any`, the generic decoder -/
+theorem opsOK_any (n : Nat) : OpsOK o co n .any := by
+  intro s cur v e r hwt _ h
+  cases n with
+  | zero => rw [dv_zero] at h; cases h
+  | succ n =>
+    cases hn : isNullLit s with
+    | some r0 =>
+      rw [dv_null o n _ s r0 cur hn] at h
+      injection h with h; injection h with h1 h2; injection h2 with h2 h3
+      subst h1; subst h2; subst h3
+      refine ⟨rfl, ?_⟩
+      intro lib tab P pc sp _ hat σ hi hg R _ k
+      rw [ops] at hat k
+      simp only [fin, Bool.not_false, if_true] at hat k
+      refine e_isNull_hit (hat.get 0 rfl) (by rw [hi]; exact hn) ?_
+      refine ends_step (hat.get 3 rfl) (pc' := pc + 3 + 1) (s' := ({ σ with inp := r0 } : St).put .nil) (by simp only [step]) ?_
+      exact k _ ⟨rfl, rfl, rfl, (merge_none_right' _).symm⟩
+    | none =>
+      rw [dv_any o n s cur hn] at h
+      cases hp : parseR (n + 1) s with
+      | none => rw [hp] at h; cases h
+      | some q =>
+        obtain ⟨j, r1⟩ := q
+        rw [hp] at h
+        simp only at h
+        injection h with h; injection h with h1 h2; injection h2 with h2 h3
+        subst h1; subst h2; subst h3
+        refine ⟨toAny_wt o j, ?_⟩
+        intro lib tab P pc sp _ hat σ hi hg R ht k
+        rw [ops] at hat k
+        simp only [fin, Bool.not_false, if_true] at hat k
+        refine e_isNull_miss (hat.get 0 rfl) (by rw [hi]; exact hn) ?_
+        have hx := parseR_exec hp
+        have hst := step_any (o := o) (pc := pc + 1) (σ := σ) hg hwt (by rw [hi]; exact hx)
+        cases hta : toAny o j with
+        | mk g e' =>
+          rw [hta] at hst ht k
+          cases e' with
+          | none =>
+            simp only at hst
+            refine ends_step (hat.get 1 rfl) hst ?_
+            refine e_goto (hat.get 2 rfl) ?_
+            exact k _ ⟨rfl, rfl, rfl, (merge_none_right' _).symm⟩
+          | some x =>
+            simp only at hst
+            exact ends_err (hat.get 1 rfl) hst (ht (by simp) _)
 
 end SonicSpec.Dir
